@@ -243,6 +243,8 @@ pub fn run(cfg: &Cfg, rep: &mut Report) {
     let int_lists: Vec<Vec<i64>> = vec![
         vec![], vec![5], vec![1, 2, 3], vec![i64::MAX, 1], vec![i64::MIN, -1], vec![-1, 0, 7, 7], vec![6, 3, 12, 9], vec![2; 70], vec![3; 45],
         vec![0, 0], vec![-1], vec![i64::MIN, i64::MIN], vec![4, -6, 8, -10, 12], vec![1, 1, 2, 3, 5, 8, 13, 21], vec![255, 15, 60],
+        // long enough for anything that switches algorithm with the size (sorting, chunking, buffering)
+        (0..33).collect(), (0..40).map(|i| (i * 7) % 11).collect(), (0..64).map(|i| i * i - 50).collect(), (0..100).map(|i| (i * 37) % 101 - 50).collect(), (0..257).map(|i| i % 5).collect(),
     ];
     for l in &int_lists {
         if own(&mut cell) {
